@@ -193,7 +193,7 @@ def real_to_rout(outcome):
     if w[0] == "ERR":
         f = w[1].split(" ")
         if f[0] != "E":
-            return "RPanic 98", None
+            return "RErrNoAction", None
         exp = [] if f[5] == "-" else [int(x) for x in f[5].split(",")]
         return "RErr (mkPos %s %s %s) %s" % (f[1], f[2], f[3], gl_nats(exp)), None
     if w[0] == "PANIC":
